@@ -13,6 +13,7 @@ import (
 	"time"
 
 	vegeta "github.com/tsenart/vegeta/v12/lib"
+	"github.com/tsenart/vegeta/v12/lib/plot"
 )
 
 func init() {
@@ -140,6 +141,17 @@ func runC05(idx int, rng *rand.Rand, tier string) []Case {
 		w.Z(rt.dur[r.Seq])
 	}
 	rt.mu.Unlock()
+	// the consumer that relies on the order: the plot re-orders by sequence number and wants
+	// time not to decrease; it must take every result of a real attack, in arrival order
+	pl := plot.New()
+	refused := 0
+	for _, r := range rs {
+		if err := pl.Add(r); err != nil {
+			refused++
+		}
+	}
+	pl.Close()
+	w.I(refused)
 	c.Tag = fmt.Sprintf("w%d;nt", workers)
 	c.Dist = fmt.Sprintf("workers%d/slow=%v/timeout=%v/slowtargeter=%v/n%d", workers, slow, shortTimeout, slowTargeter, sizeClass(len(rs)))
 	c.Sample = map[string]interface{}{"workers": workers, "results": len(rs), "transport_latency": slow}
